@@ -913,7 +913,11 @@ func hasBalancedBlocks(s string) bool {
 			if ident < 0 {
 				ident = i
 			}
-			i = cssEscapeEnd(s, i) // the escaped character is not a delimiter
+			end := cssEscapeEnd(s, i) // the escaped character is not a delimiter
+			if cssEscapeHidesDelimiter(s, i, end) {
+				return false
+			}
+			i = end
 			continue
 		}
 		name := ""
@@ -1001,6 +1005,22 @@ func cssEscapeEnd(s string, i int) int {
 	return j - 1
 }
 
+// cssEscapeHidesDelimiter reports whether the escape s[i..end] (outside a
+// string) stands for a quote or a parenthesis. For a browser that character is
+// part of a name or of a url ("url(\22http://../x)" is the relative URL
+// "\"http://../x"); the matchers are shown the decoded text, where it would read
+// as a delimiter ("url(\"http://../x)"), so such a value cannot be judged.
+func cssEscapeHidesDelimiter(s string, i, end int) bool {
+	if end >= len(s) {
+		return false
+	}
+	switch removeUnicode(s[i : end+1]) {
+	case `"`, "'", "(", ")":
+		return true
+	}
+	return false
+}
+
 // cssURLTokenEnd scans the unquoted url token whose first character is s[i]
 // and returns the index of its closing ")". It reports false for a bad url:
 // one that contains a quote, "(", a non-printable character, white space that
@@ -1016,7 +1036,11 @@ func cssURLTokenEnd(s string, i int) (int, bool) {
 			if i+1 >= len(s) || s[i+1] == '\n' || s[i+1] == '\r' || s[i+1] == '\f' {
 				return 0, false
 			}
-			i = cssEscapeEnd(s, i)
+			end := cssEscapeEnd(s, i)
+			if cssEscapeHidesDelimiter(s, i, end) {
+				return 0, false
+			}
+			i = end
 		case isCSSSpace(c):
 			for i < len(s) && isCSSSpace(s[i]) {
 				i++
